@@ -978,9 +978,11 @@ func after(c *kernel.Ctx) {
 		}
 		ret := o.ret
 		if dl, exp := st.deadlineOf(o.key.slot); exp && o.retT >= dl {
-			if o.kind == opStore && o.err == "" && o.callT < dl {
-				// a descheduled Store that began before the deadline and succeeded after it: its insert took
-				// effect somewhere in between and reads completed before the deadline may have seen it
+			if o.kind == opStore && (o.err == "" || o.err == "clash") && o.callT < dl {
+				// a descheduled Store that began before the deadline and returned after it - successfully, or with a
+				// clash on one entry after other entries had been applied (since releasing the mutex is a scheduling
+				// point, a Store can be descheduled between applying its entries and returning): its inserts took
+				// effect somewhere in between and reads completed before the deadline may have seen them
 				maxStamp++
 				ret = maxStamp
 			} else {
